@@ -194,6 +194,8 @@ def op(name, w, a, b):
         for p, q in ((a, b), (b, a)):
             if is_k(q) and q[2] == 1:
                 return p
+            if is_k(q) and q[2] == 0:
+                return K(w, 0)
     if name == "add":
         # lane-disjoint sum is an `or`: zext(lo) + (x << k) with lo narrower than k
         for p, q in ((a, b), (b, a)):
@@ -544,3 +546,46 @@ def lanes_str(bits):
             out.append("?" if b is None else str(b))
             i += 1
     return " ".join(out)
+
+
+def rebuild(t, f=None):
+    """re-normalise a term bottom-up; `f` maps leaves ('v' / 'obj' / 'sel' ...) to replacement terms"""
+    if not isinstance(t, tuple) or not t:
+        return t
+    if f is not None:
+        r = f(t)
+        if r is not None:
+            return r
+    h = t[0]
+    if h in ("k", "v"):
+        return t
+    g = lambda x: rebuild(x, f)
+    if h == "zext":
+        return zext(t[1], g(t[2]))
+    if h == "sext":
+        return sext(t[1], g(t[2]))
+    if h == "trunc":
+        return trunc(t[1], g(t[2]))
+    if h == "op":
+        return op(t[1], t[2], g(t[3]), g(t[4]))
+    if h == "sh":
+        return shift(t[1], t[2], g(t[3]), g(t[4][2]))
+    if h == "neg":
+        return neg(t[1], g(t[2]))
+    if h == "bswap":
+        return bswap(t[1], g(t[2]))
+    if h == "cmp":
+        return cmp(t[1], t[2], g(t[3]), g(t[4]))
+    if h == "not":
+        return lnot(g(t[1]))
+    if h == "land":
+        return land(g(t[1]), g(t[2]))
+    if h == "lor":
+        return lor(g(t[1]), g(t[2]))
+    if h == "ite":
+        return ite(g(t[1]), g(t[2]), g(t[3]))
+    if h == "load":
+        return ("load", t[1], g(t[2]))
+    if h == "sel":
+        return ("sel", g(t[1]), g(t[2]), t[3])
+    return tuple(g(x) if isinstance(x, tuple) else x for x in t)
